@@ -105,7 +105,20 @@ struct HEq {
   }
 };
 
-using Tbl = libcuckoo::cuckoohash_map<IKey, IVal, VHash, HEq, VAlloc<std::pair<const IKey, IVal>>, VH_S>;
+#ifndef VH_BYVAL
+#define VH_BYVAL 0
+#endif
+#if VH_BYVAL
+// a hash functor that takes key_type BY VALUE (legal, and common for cheap keys): a key forwarded into it as an rvalue is
+// moved from, so the table must hash an lvalue and forward the key only when it constructs the stored element (C16)
+struct KHash {
+  size_t operator()(IKey k) const { return hashfn(g_hash_mode, k.v); }
+  size_t operator()(const Probe &p) const { return hashfn(g_hash_mode, p.v); }
+};
+#else
+using KHash = VHash;
+#endif
+using Tbl = libcuckoo::cuckoohash_map<IKey, IVal, KHash, HEq, VAlloc<std::pair<const IKey, IVal>>, VH_S>;
 using LT = Tbl::locked_table;
 using Abs = std::map<uint64_t, uint64_t>;
 
